@@ -16,9 +16,12 @@ SPEC = {
     "trusted_base": [
         "Coq 8.16.1 kernel + VM; no axioms (Print Assumptions: closed under the global context)",
         "hand-written Gallina model of the parser (Model/Parser.v), of readRules for comment-free files, the error routing of "
-        "GetChecksForEntry and parseRuleError (Model/Routing.v); tied on every run by forest-level correspondence (every field of "
-        "File/Group/Rule, both modes) plus entry/routing correspondence against the real discovery and GetChecksForEntry",
-        "external oracles (NewPositionRange line extent, name/duration validators) are Section variables with no assumed behaviour",
+        "GetChecksForEntry and parseRuleError (Model/Routing.v), of the line extent of NewPositionRange (Model/YamlPosLines.v) and of "
+        "LineRange.Expand / the console plain loop (Model/Render.v); tied on every run by forest-level correspondence (every field of "
+        "File/Group/Rule incl. line extents, both modes), entry/routing correspondence against the real discovery and GetChecksForEntry, and "
+        "correspondence of the real LineRange.Expand (in-file, empty and inverted ranges)",
+        "external oracles (NewPositionRange line extent, name/duration validators) are Section variables; the lines theorems carry the explicit "
+        "premise plines_inside (proved of Model/YamlPosLines) and docs_fit (checked on every case; fails only in the known class C02-lone-cr)",
         "runtime remainder NOT covered by any theorem (labelled partial): panics/hangs inside yaml.v3, the PromQL parser, text/template, "
         "the ~25 opaque checks and the renderers; covered by execution only: in-process pipeline (4 mode/schema variants, 4 renderers) and the "
         "real pint binary (console+JSON+checkstyle, TeamCity) on every generated/mutated/fixture file under timeout",
@@ -38,17 +41,26 @@ def run(ctx):
 
 MANIFEST = {
     "text": "PARTIAL by nature (total correctness of a Go program). Proved (Coq, no axioms, all node forests, generic in every external "
-            "oracle): every rule either parser mode returns is exactly one of {error set, alerting with non-empty alert+expr, recording with "
-            "non-empty record+expr}; entries with a path/rule error are routed to the error check only and its problem is computed without "
-            "touching a nil error, is Fatal and points at the error line; all other entries carry a complete rule; the relaxed descent "
-            "terminates on every forest. Tie: forest-level correspondence of the real parser (both modes) + entries/routing correspondence "
-            "against the real discovery/GetChecksForEntry. Runtime remainder (panics, hangs, unrenderable reports, line ranges outside the file) "
-            "is searched for, not proved: the real in-process pipeline (strict/relaxed x prometheus/thanos, console/JSON/checkstyle/TeamCity "
-            "renderers) and the real pint binary run on every file of a stream made of the repository's YAML fixtures, testscript bodies and fuzz "
-            "seeds, structure-aware generated documents with per-field defects, anchors/aliases/merge keys, YAML-in-YAML wrappers and "
-            "byte/line mutations (CR/CRLF, tabs, non-UTF-8, truncation, token lines, pint comments).",
-    "note": "Coq 8.16.1 kernel+VM, no axioms; hand model validated by differential execution; crash/hang/renderability/line-range part is "
-            "testing under timeout, labelled partial; two open known findings (embedded YAML line offsets beyond EOF; promql/regexp panic).",
-    "technique": "Coq theorems over a Gallina parser/routing model + forest and entry correspondence + execution-based crash detector "
-                 "(in-process pipeline and real binary, four renderers)",
+            "oracle): (1) every rule either parser mode returns is exactly one of {error set, alerting with non-empty alert+expr, recording with "
+            "non-empty record+expr}; (2) entries with a path/rule error are routed to the error check only and its problem is computed without "
+            "touching a nil error, is Fatal and points at the error line; all other entries carry a complete rule; (3) the relaxed descent "
+            "terminates on every forest; (4) reported lines lie inside the file: if the coordinates yaml.v3 reported are inside the file "
+            "(executable predicate docs_fit, evaluated on every correspondence case) then the yaml/parse line of every error entry, the line "
+            "range of every complete rule (1 <= first <= last <= TotalLines) and the line extent of every field, label and annotation are inside "
+            "the file, in both modes, incl. YAML embedded in literal block scalars; the needed bound on NewPositionRange's lines is proved of the "
+            "executable loop model used by the correspondence runs, together with the absence of index panics in that loop; (5) renderer index "
+            "arithmetic on line ranges: LineRange.Expand (JSON) returns First..Last for in-file ranges and panics iff Last < First-1, the console "
+            "loop prints every line of an in-file range and never indexes outside for any range. Tie: forest-level correspondence of the real "
+            "parser (both modes) + entries/routing correspondence against the real discovery/GetChecksForEntry + LineRange.Expand correspondence. "
+            "Runtime remainder (panics, hangs, unrenderable reports, line ranges computed by the individual checks) is searched for, not proved: the "
+            "real in-process pipeline (strict/relaxed x prometheus/thanos, console/JSON/checkstyle/TeamCity renderers) and the real pint binary run "
+            "on every file of a stream made of the repository's YAML fixtures, testscript bodies and fuzz seeds, structure-aware generated "
+            "documents with per-field defects, anchors/aliases/merge keys, YAML-in-YAML wrappers and byte/line mutations (CR/CRLF, tabs, "
+            "non-UTF-8, truncation, token lines, pint comments).",
+    "note": "Coq 8.16.1 kernel+VM, no axioms; hand models validated by differential execution on every run; crash/hang/renderability and the "
+            "line ranges built by individual checks are testing under timeout, labelled partial; one open known finding C02-lone-cr (yaml.v3 counts a "
+            "lone CR as a line break, pint does not: lines beyond the file, and ranges inverted by the mix make `pint lint --json` panic in "
+            "LineRange.Expand) - it is exactly the class where the hypothesis docs_fit of theorem (4) fails.",
+    "technique": "Coq theorems over Gallina parser/routing/position-lines/render models + forest, entry and Expand correspondence + "
+                 "execution-based crash detector (in-process pipeline and real binary, four renderers)",
 }
